@@ -23,4 +23,11 @@ for o in res.obligations:
         print(f'  {o.status:10} {o.backend or "":14} {o.time:6.2f}s {o.kind:6} {o.name}  [{" > ".join(map(str, o.path_sig))[:300]}] {o.ladder}')
         if o.status == 'refuted' and getattr(o, 'replay', None):
             print('     replay:', str(o.replay)[:1500])
+agg = {}
+for o in res.obligations:
+    k = (o.backend, o.kind)
+    a = agg.setdefault(k, [0, 0.0]); a[0] += 1; a[1] += o.time
+if os.environ.get('AGG'):
+    for k, (n, tm) in sorted(agg.items(), key=lambda kv: -kv[1][1])[:14]:
+        print(f'   {k[0]!s:40} {k[1]:7} n={n:4} time={tm:7.1f}s')
 print(f"total {time.time() - t0:.1f}s  explore {res.time - res.solver_time:.1f}s solver {res.solver_time:.1f}s pre_sat={getattr(res, 'pre_sat', None)}")
